@@ -6,7 +6,9 @@ predict_regression / ... on the estimator and on every nested module).  A used
 DeepARTMAP is also re-fitted in the other mode (fit(X) <-> fit(X, y)) and after
 `modules` was replaced by attribute assignment; a used FusionART is re-fitted after its gamma_values
 were re-configured (set_params / attribute assignment, list or ndarray) on streams with exact activation ties
-across >= 3 channels.  Tie: the
+across >= 3 channels.  A new SimpleARTMAP / ARTMAP / DeepARTMAP built around modules that
+were trained before being wrapped (alone or inside another host, by fit or partial_fit) is trained by one fit and by
+partial_fit batches and compared with the same host over never-used modules.  Tie: the
 Lean folds reproduce fit / partial_fit histories end-to-end (exact kernels)."""
 from __future__ import annotations
 
@@ -21,6 +23,7 @@ from . import e2e
 
 RULE = ("cases = (family, hyper-parameters, stream, partition / earlier history (DeepARTMAP: in either mode, modules re-assigned; "
         "FusionART: gamma_values re-configured by set_params / assignment, as list / ndarray, >= 3 channels with exact fused ties) "
+        "/ hosts (SimpleARTMAP, ARTMAP, DeepARTMAP) over modules trained before being wrapped: alone / in another host, fit / partial_fit "
         "/ read-only interleaving incl. accessors); all "
         "compositions for n <= 5, random ones beyond; non-trivial when the stream has >= 2 samples and the trained "
         "model has >= 2 categories or a non-trivial map; distinct by hash of (family spec, stream, partition)")
@@ -519,6 +522,171 @@ def reconfigured_refits(ctx):
             cov.hit("fusion-route:list-vs-ndarray:" + ("same-model" if eq_snap(snaps["list"], snaps["ndarray"]) else "different-model"))
 
 
+# ---------------------------------------------------------------- hosts built around modules that had an earlier life
+#
+# The hyper-parameters of SimpleARTMAP / ARTMAP / DeepARTMAP are *module objects*, and nothing says that the objects handed to
+# the constructor are new: a module may have been trained on its own, inside another host (which may still be alive and share
+# it), by fit or by partial_fit, before it is wrapped.  "The result depends only on the hyper-parameters and the ordered
+# sample stream": a host's fit and a host's FIRST partial_fit both start a new model, so
+#     host(over pre-trained modules).fit(stream)                == host(over never-used modules).fit(stream)
+#     host(over pre-trained modules).partial_fit(batches ...)   == host(over never-used modules).partial_fit(batches ...)
+# (and the two right-hand sides are equal by section (a) of run()).  "Never-used" = constructed from the same specification.
+
+PRETRAINED_HOSTS = ["SimpleARTMAP", "ARTMAP", "DeepARTMAP-sup", "DeepARTMAP-unsup"]
+LIVES = ["alone:fit", "alone:partial_fit", "in-SimpleARTMAP:fit", "in-SimpleARTMAP:partial_fit", "in-same-host:fit",
+         "in-same-host:partial_fit"]
+
+
+def _host_modules(name, est):
+    if name == "SimpleARTMAP":
+        return [est.module_a]
+    if name == "ARTMAP":
+        return [est.module_a, est.module_b]
+    return list(est.modules)
+
+
+def _host_sides(name, k):
+    """which side of a map field each constructor slot ends up on (DeepARTMAP without labels: modules[0] is the B side of
+    the first layer, an ARTMAP(modules[1], modules[0]))"""
+    if name == "SimpleARTMAP":
+        return ["A"]
+    if name == "ARTMAP":
+        return ["A", "B"]
+    return (["B"] if name == "DeepARTMAP-unsup" else ["A"]) + ["A"] * (k - 1)
+
+
+def _host_over(name, mods):
+    import artlib
+    with quiet():
+        if name == "SimpleARTMAP":
+            return artlib.SimpleARTMAP(mods[0])
+        if name == "ARTMAP":
+            return artlib.ARTMAP(mods[0], mods[1])
+        return artlib.DeepARTMAP(list(mods))
+
+
+def _host_channel(name, rows, j):
+    if name == "SimpleARTMAP":
+        return rows.arrs["X"]
+    if name == "ARTMAP":
+        return rows.arrs["X"] if j == 0 else rows.arrs["y"]
+    return rows.arrs["Xs"][j]
+
+
+def pretrained_modules(ctx):
+    cov = ctx.cov
+    nmax = ctx.scale(14, 40)
+    N = ctx.scale(120, 1500)
+    for i in range(N):
+        r = gen.rng_for(ctx.seed, "C06-pretrained", i)
+        # first the cases where only A-side modules had an earlier life, then those where a B-side module had one
+        with_b = i >= (3 * N) // 4
+        name = (["ARTMAP", "DeepARTMAP-unsup"][i % 2]) if with_b else PRETRAINED_HOSTS[i % 4]
+        try:
+            fam, rows = families.build(r, name, r.randint(1, nmax), floats=r.random() < 0.25)
+        except Exception as e:
+            ctx.issue("diff", f"harness:build:{name}:pretrained", repr(e))
+            continue
+        n = len(rows)
+        k = len(_host_modules(name, fam.make()))
+        sides = _host_sides(name, k)
+        a_slots = [j for j in range(k) if sides[j] == "A"]
+        if with_b:
+            used = [j for j in range(k) if sides[j] == "B"] + (r.sample(a_slots, r.randint(0, len(a_slots))) if r.random() < 0.5 else [])
+        else:
+            used = sorted(r.sample(a_slots, r.randint(1, len(a_slots)))) if r.random() < 0.5 else list(a_slots)
+        used = sorted(used)
+        side = "B" if with_b else "A"
+        life = LIVES[(i // 4) % len(LIVES)]
+        # ---- what the modules saw earlier: other rows of the same layout, or some of the stream's own rows in another order
+        kpre = r.randint(1, 8)
+        if r.random() < 0.6:
+            pre = fam.fresh(r, kpre, r.random() < 0.25)
+        else:
+            pre = rows.take(np.array([r.randrange(n) for _ in range(kpre)]))
+        pre_labels = gen.labels(r, len(pre), r.randint(1, 3))
+        parts = gen.compositions(r, n)
+        steps = [(int(a), int(a + p)) for a, p in zip(np.cumsum([0] + parts[:-1]).tolist(), parts)]
+        desc = dict(fam.describe(), rows=rows.tolist(), partition=parts,
+                    pretrained=dict(constructor_slots=used, sides=[sides[j] for j in used], life=life, rows=pre.tolist(),
+                                    labels=pre_labels.tolist()))
+
+        def earlier_life():
+            """-> the module objects for the host's constructor: those in `used` have been trained, the rest are new"""
+            import artlib
+            old = fam.make()
+            mods = _host_modules(name, old)
+            where, how = life.split(":")
+            cut = max(1, len(pre) // 2)
+            if where == "in-same-host":
+                if how == "fit":
+                    fam.fit(old, pre)
+                else:
+                    fam.pfit(old, pre.sl(0, cut))
+                    if cut < len(pre):
+                        fam.pfit(old, pre.sl(cut, len(pre)))
+            else:
+                for j in used:
+                    m, Xj = mods[j], _host_channel(name, pre, j)
+                    with quiet():
+                        if where == "in-SimpleARTMAP":
+                            m = artlib.SimpleARTMAP(m)
+                            data = [(Xj, pre_labels)] if how == "fit" else [(Xj[:cut], pre_labels[:cut]), (Xj[cut:], pre_labels[cut:])]
+                        else:
+                            data = [(Xj,)] if how == "fit" else [(Xj[:cut],), (Xj[cut:],)]
+                        for args in data:
+                            if len(args[0]):
+                                (m.fit if how == "fit" else m.partial_fit)(*args, **fam.kw())
+            new = _host_modules(name, fam.make())
+            return [mods[j] if j in used else new[j] for j in range(k)], max(len(getattr(mods[j], "W", [])) for j in used)
+
+        def history(pretrained, how):
+            if pretrained:
+                mods, ncat = earlier_life()
+                est = _host_over(name, mods)
+            else:
+                est, ncat = fam.make(), 0
+            if how == "fit":
+                fam.fit(est, rows)
+            else:
+                for (a, b) in steps:
+                    fam.pfit(est, rows.sl(a, b))
+            return families.strip(fam.snap(est), BOUNDS), ncat
+        # ---- the hosts over never-used modules (a failure here is section (a)'s or C04's business)
+        try:
+            want = {how: history(False, how)[0] for how in ("fit", "partial_fit")}
+        except Exception as e:
+            cov.hit(f"pretrained:ref-raised:{name}:{exc_enum(e)}")
+            continue
+        try:
+            _, ncat = earlier_life()
+        except Exception as e:
+            cov.hit(f"pretrained:earlier-life-raised:{name}:{life}:{exc_enum(e)}")
+            continue
+        cov.case(("pretrained", name, fam.spec, desc["rows"], parts, used, life, desc["pretrained"]["rows"]), n >= 2 and ncat >= 1)
+        if ncat >= 1:
+            cov.hit("pretrained:module-holds-categories-when-wrapped")
+        for how, entry in (("fit", "fit"), ("partial_fit", "first-partial_fit")):
+            try:
+                got, _ = history(True, how)
+            except Exception as e:
+                ctx.issue("violation", f"{name}.{entry}:{side}-side-module-pretrained:{exc_enum(e)}",
+                          f"{how} of a new {name} whose constructor slots {used} ({side} side) hold modules trained earlier ({life}) raised "
+                          f"{e!r} where the same host over never-used modules succeeds", dict(desc, how=how))
+                continue
+            if not eq_snap(got, want[how]):
+                bad = sorted(kk for kk in want[how] if not eq_snap(got.get(kk), want[how][kk]))
+                ctx.issue("violation", f"{name}:{entry}:{side}-side-module-pretrained!=never-used-modules",
+                          f"a new {name} whose constructor slots {used} (sides {[sides[j] for j in used]}) hold modules trained earlier ({life}, "
+                          f"{ncat} categories) and that is then trained by {how} (partition {parts if how != 'fit' else [n]} of {n} samples) "
+                          f"differs in {bad} from the same host over never-used modules with the same hyper-parameters", dict(desc, how=how))
+            cov.hit(f"pretrained:{entry}-vs-never-used-modules")
+        cov.hit(f"pretrained:{name}:{side}-side")
+        cov.hit(f"pretrained:life:{life}")
+        if len(used) < k:
+            cov.hit("pretrained:some-modules-used-some-new")
+
+
 def prepare(ctx):
     """Translator tie (see gen_tie.py): the statements of the BaseART methods are regenerated from the source and the
     theorems about the generated definitions are re-checked"""
@@ -684,6 +852,7 @@ def run(ctx):
         accessors_interleaved(ctx, i, name, fam, rows, parts, desc, ref_snap)
     deep_refits(ctx)
     reconfigured_refits(ctx)
+    pretrained_modules(ctx)
     long_streams(ctx)
     # ---- tie: Lean folds vs implementation (fit, partial_fit partitions, re-fit)
     e2e.base_histories(ctx, "C06", ctx.scale(150, 3000), ctx.scale(20, 80), fields=("labels", "W"))
